@@ -3,7 +3,7 @@
    below are what that oracle and the implementation's reverse tracking rest on. *)
 From Coq Require Import List Bool String ZArith NArith.
 Import ListNotations.
-Require Pauli Span Tab Flow Adj AdjGen TableAdj.
+Require Pauli Span Tab Flow Adj AdjGen TableAdj GenProofs_RevMeas.
 Require Import Stab Spec SpecProofs GF2 Act Gen_GateTable Gen_RevTrack GenProofs_RevTrack.
 
 (* flows of a Clifford map are closed under products, signs included: products of generators are flows (any n) *)
@@ -47,5 +47,9 @@ Theorem C14_adjoint_all_gates :
   forall n (c : list TableAdj.tgop), Forall (TableAdj.tok n) c -> forall (D : AdjGen.det) (F : AdjGen.st),
   AdjGen.parity_at D 0 (AdjGen.frun (map TableAdj.compile c) F) = AdjGen.pair_upto n (AdjGen.back (map TableAdj.compile c) D) F.
 Proof. exact TableAdj.adjoint_table_circuits. Qed.
+(* the reverse tracker's measurement / reset undo routines (undo_MX .. undo_MRZ, undo_RX .. undo_RZ, regenerated from source) are
+   the backward steps of that theorem for the gate's documented basis, and test the anticommuting component for gauges *)
+Theorem C14_revtrack_measure_reset_routines_match : GenProofs_RevMeas.revmeas_all_ok = true.
+Proof. exact GenProofs_RevMeas.revmeas_routines_match_adjgen. Qed.
 Print Assumptions C14_adjoint_all_gates. Print Assumptions C14_flows_closed_under_product. Print Assumptions C14_oracle_measurement_update.
 Print Assumptions C14_reverse_tracker_routines_match_inverse_table.
